@@ -30,14 +30,14 @@ def _msg(k, w=0, e=0, ids=()):
 
 
 class TracedRace:
-    def __init__(self, scn, seed=0, test_mode=True, queue_size=None, pp_interval=2, offsets=None, on_error="continue", downsample=1, fault="none", req_variant="conn_error", fault_delay=0):
+    def __init__(self, scn, seed=0, test_mode=True, queue_size=None, pp_interval=2, offsets=None, on_error="continue", downsample=1, fault="none", req_variant="conn_error", fault_delay=0, lenient=()):
         self.scn = scn
         self.fault_delay = fault_delay
         self.fault_kind = fault
         self.req_variant = req_variant
         if fault == "req" and req_variant in ("api_error", "unsuccessful"):
             on_error = "abort"
-        self.world = racesim.RaceWorld(scn, seed=seed, test_mode=test_mode, queue_size=queue_size, pp_interval=pp_interval, offsets=offsets, on_error=on_error, downsample=downsample, full=True)
+        self.world = racesim.RaceWorld(scn, seed=seed, test_mode=test_mode, queue_size=queue_size, pp_interval=pp_interval, offsets=offsets, on_error=on_error, downsample=downsample, full=True, lenient=lenient)
         self.w = self.world
         from esrally.driver import runner
         from esrally.track import params
@@ -158,14 +158,16 @@ class TracedRace:
     def sample_id(self, s):
         vid = s.request_meta_data.get("vid")
         if vid is None or vid not in self.vid_info:
-            raise tlc.MachineryError("sample without request id")
+            # a sample the harness cannot attribute to a completed request (e.g. a changed implementation records a request that
+            # failed fatally): it gets an id no produced sample has, so the sample clauses and L2 see it
+            return (int(getattr(s, "client_id", 0) or 0), -1, 0)
         return self.vid_info[vid]
 
     def doc_ids(self, docs, name="latency"):
         out = []
         for d in docs:
             if d.get("name") == name and "vid" in d.get("meta", {}):
-                out.append(self.vid_info[d["meta"]["vid"]])
+                out.append(self.vid_info.get(d["meta"]["vid"], (int(d["meta"].get("client_id", 0) or 0), -1, 0)))
         return out
 
     # ---- projection
@@ -354,6 +356,9 @@ class TracedRace:
         if len(self.events) < self.fault_delay:
             return []
         k = self.fault_kind
+        if k == "req" and self.req_variant in ("api_error", "unsuccessful"):
+            # these outcomes are fatal only for tasks that do not declare ignore-response-error-level: non-fatal
+            return [("fault", k, c) for c in sorted(w.pending) if int(w.pending[c]["path"].rsplit("/", 1)[1]) not in w.lenient]
         if k in ("req", "param"):
             return [("fault", k, c) for c in sorted(w.pending)]
         if k in ("store", "rcstore", "cancel"):
